@@ -40,14 +40,15 @@ func init() {
 		Race:       true,
 		RealRand:   true,
 		MaxWorkers: 8,
-		Rule: "case = one concurrent round: (a) one mobile.Reader shared by several goroutines mixing ReadDocument with SetApduMaxLe / SkipImages / WithAAChallenge against one simulated chip; (b) one reader.Reader: a ReadDocument with concurrent setters; (c) one verifier.Verifier / mobile.Verifier: Verify with concurrent WithAAChallenge; (d) independent readers and verifiers sharing one GenericCertPool / CombinedCertPool; (e) cold start in a fresh process: 32 goroutines calling PreloadCscaCertPool / NewSampleDocument / Verifier.Verify; GOMAXPROCS varied over {2,4,16}, chip responses delayed by PRNG yields; " +
-			"oracles: no DATA RACE report with a gmrtd frame; every recorded history (call/return stamps from one atomic counter at the client boundary) linearizable against the sequential model of the configuration; independent instances return the lone-call result; master-list loaders each invoked once and every caller sees the same pool; non-trivial = a round with at least two overlapping calls; distinct = (workload, observed completion order)",
+		Rule: "case = one concurrent round: (a) one mobile.Reader shared by several goroutines mixing ReadDocument with SetApduMaxLe / SkipImages / WithAAChallenge against one simulated chip; (b) one reader.Reader: a ReadDocument with concurrent setters; (c) one verifier.Verifier / mobile.Verifier: Verify with concurrent WithAAChallenge; (d) independent readers and verifiers sharing one GenericCertPool / CombinedCertPool; (e) cold start in a fresh process: 32 goroutines calling PreloadCscaCertPool / NewSampleDocument / Verifier.Verify; (f) client kind lister: readers, verifiers and listers sharing a caller-built GenericCertPool / master-list SignedDataCertPool / CombinedCertPool (and its inner stores) / AddCerts-filled store - a lister calls All / BySKI / ByIssuerCountry / ByIssuerAndSerial and sorts, reverses, shuffles, rotates, overwrites, truncates+appends to the slice it received; buffers passed in (AA challenge, Verify blob, AddCerts slice, transceiver response) are overwritten once the call has returned, certificate chains in results are overwritten; then a lone lister wipes every accessor's result on an unshared twin; (g) the same listers on the built-in store beside one shared mobile.Verifier, bytes returned by mobile.Document accessors overwritten; GOMAXPROCS varied over {2,4,16}, chip responses delayed by PRNG yields; " +
+			"oracles: no DATA RACE report with a gmrtd frame; every recorded history (call/return stamps from one atomic counter at the client boundary) linearizable against the sequential model of the configuration; independent instances return the lone-call result; master-list loaders each invoked once and every caller sees the same pool; accesses to caller-owned memory are made in verifCallerOwned* functions so that a race on it is attributed to the accessor that handed out (or the call that kept) the alias; at quiescent points a shared store lists exactly the added certificates and answers every lookup as the lone call did before sharing, every concurrent lookup equals the lone call; non-trivial = a round with at least two overlapping calls; distinct = (workload, observed completion order)",
 		MinEvaluations: 20,
 		HangSeconds:    600,
 		Assumptions: []string{
 			"the race detector only sees the interleavings that occurred; rounds are repeated with yields at the transceiver (the natural suspension point inside a read) and different GOMAXPROCS",
 			"the simulated chip is guarded by the harness's own lock and starts a new session whenever an unprotected SELECT arrives, so serialised reads are clean sessions",
 			"linearizability is checked per object with porcupine (timeout => inconclusive)",
+			"caller-owned = the slice an accessor returns and its elements as values, a buffer passed in once the call has returned; the bytes a Certificate's fields point to and the buffer given to GenericCertPool.Add are shared with the store by the unchanged library and are never written",
 		},
 		Run: runC20,
 	})
@@ -70,6 +71,10 @@ type c20Chip struct {
 	inFlight atomic.Int32
 	overlap  atomic.Int32
 	perG     map[uint64]*c20Obs // observations per calling goroutine (the library has none of its own)
+	// reuseResp: the transceiver owns its response buffer and overwrites the previous
+	// response when the next command arrives (as a host binding with one I/O buffer does)
+	reuseResp bool
+	prevResp  []byte
 }
 
 // goroutine id of the caller (the usual runtime.Stack trick; test-harness use only)
@@ -107,7 +112,13 @@ func (c *c20Chip) Transceive(cla, ins, p1, p2 int, data []byte, le int, enc []by
 	}
 	c.mu.Lock()
 	defer c.mu.Unlock()
+	if c.reuseResp && c.prevResp != nil {
+		verifCallerOwnedInput_Response(c.prevResp)
+	}
 	resp := c.card.Transceive(append([]byte{}, enc...))
+	if c.reuseResp {
+		c.prevResp = resp
+	}
 	ev := c.card.Events[len(c.card.Events)-1]
 	if c.perG == nil {
 		c.perG = map[uint64]*c20Obs{}
@@ -343,7 +354,9 @@ func c20MobileReader(k *fw.K, round int) {
 					rec.do(g, c20Op{Kind: "skipimages"}, func() c20Out { mr.SkipImages(); return c20Out{} })
 				case 4:
 					ch := randBytes(lr, 8)
-					rec.do(g, c20Op{Kind: "challenge", Bytes: fmt.Sprintf("%x", ch)}, func() c20Out { mr.WithAAChallenge(ch); return c20Out{} })
+					own := append([]byte{}, ch...)
+					rec.do(g, c20Op{Kind: "challenge", Bytes: fmt.Sprintf("%x", ch)}, func() c20Out { mr.WithAAChallenge(own); return c20Out{} })
+					verifCallerOwnedInput_Challenge(own) // the buffer is the caller's again once the call has returned
 				}
 			}
 		}(g)
@@ -395,7 +408,9 @@ func c20Reader(k *fw.K, round int) {
 					rec.do(g, c20Op{Kind: "skipimages"}, func() c20Out { rd.SkipImages(); return c20Out{} })
 				} else {
 					ch := randBytes(lr, 8)
-					rec.do(g, c20Op{Kind: "challenge", Bytes: fmt.Sprintf("%x", ch)}, func() c20Out { rd.WithAAChallenge(ch); return c20Out{} })
+					own := append([]byte{}, ch...)
+					rec.do(g, c20Op{Kind: "challenge", Bytes: fmt.Sprintf("%x", ch)}, func() c20Out { rd.WithAAChallenge(own); return c20Out{} })
+					verifCallerOwnedInput_Challenge(own)
 				}
 			}
 		}(g)
@@ -481,7 +496,9 @@ func c20Verifier(k *fw.K, round int, viaMobile bool) {
 					if lr.IntN(2) == 0 {
 						ch = nonceBytes // the matching challenge
 					}
-					rec.do(g, c20Op{Kind: "challenge", Bytes: fmt.Sprintf("%x", ch)}, func() c20Out { setCh(ch); return c20Out{} })
+					own := append([]byte{}, ch...)
+					rec.do(g, c20Op{Kind: "challenge", Bytes: fmt.Sprintf("%x", ch)}, func() c20Out { setCh(own); return c20Out{} })
+					verifCallerOwnedInput_Challenge(own)
 				}
 			}
 		}(g)
@@ -701,6 +718,21 @@ func runC20(c *fw.Ctx) {
 		w := w
 		c.Cases(rounds, func(i int) string { return fmt.Sprintf("%s|round=%d", w.name, i) }, func(i int, k *fw.K) {
 			prev := runtime.GOMAXPROCS([]int{2, 4, 16}[i%3])
+			defer runtime.GOMAXPROCS(prev)
+			k.Nontrivial("")
+			w.f(k, i)
+		})
+	}
+	// client kind "lister": results of accessors and buffers passed in are caller-owned
+	listers := []wl{
+		{"lister", c20Lister},
+		{"mobile-lister", c20MobileLister},
+	}
+	for wi, w := range listers {
+		w := w
+		n := []int{c.Pick(8, 400), c.Pick(3, 48)}[wi]
+		c.Cases(n, func(i int) string { return fmt.Sprintf("%s|round=%d", w.name, i) }, func(i int, k *fw.K) {
+			prev := runtime.GOMAXPROCS([]int{4, 16, 2}[i%3])
 			defer runtime.GOMAXPROCS(prev)
 			k.Nontrivial("")
 			w.f(k, i)
